@@ -1018,6 +1018,39 @@ pub fn generate(name: &str, count: usize, rng: &mut Rng, sink: &mut dyn FnMut(Se
                 sink(Session { sid: format!("v1unicode-{}", i), tag: json!({"g": "v1unicode"}), chunks, huge: None, consume: false });
             }
         }
+        // a VALID TCP line with every string of up to four bytes over {SP, LF, 'x', CR} inserted
+        // between the destination port and the CRLF (trailing separators, extra fields, stray line
+        // feeds, an early CR): what may follow the last field is CRLF and nothing else
+        "v1extra" => {
+            let alphabet = [b' ', b'\n', b'x', b'\r'];
+            let mut inserts: Vec<Vec<u8>> = Vec::new();
+            for len in 1..=4usize {
+                let n = 4usize.pow(len as u32);
+                for code in 0..n {
+                    let mut v = Vec::new();
+                    let mut c = code;
+                    for _ in 0..len {
+                        v.push(alphabet[c % 4]);
+                        c /= 4;
+                    }
+                    inserts.push(v);
+                }
+            }
+            let total = inserts.len();
+            let take = count.min(total);
+            let step = total as f64 / take as f64;
+            let off = (rng.below(97) as f64) / 97.0 * step;
+            for i in 0..take {
+                let ins = &inserts[((off + i as f64 * step) as usize).min(total - 1)];
+                let mut bytes: Vec<u8> = if i % 2 == 0 { b"PROXY TCP4 127.0.0.1 192.168.1.1 80 443".to_vec() } else { b"PROXY TCP6 ::1 2001:db8::2 65535 1".to_vec() };
+                bytes.extend_from_slice(ins);
+                bytes.extend_from_slice(b"\r\n");
+                if i % 3 == 0 {
+                    bytes.extend_from_slice(b"GET / HTTP/1.0\r\n");
+                }
+                sink(Session { sid: format!("v1extra-{}", i), tag: json!({"g": "v1extra"}), chunks: vec![bytes], huge: None, consume: false });
+            }
+        }
         // arbitrary bytes over small alphabets, incl. multi-byte characters next to CR
         "v1junk" => {
             let pieces: [&[u8]; 14] = [b"P", b"PROXY", b" ", b"\r", b"\n", "\u{e9}".as_bytes(), "\u{20ac}".as_bytes(), "\u{1F600}".as_bytes(), b"UNKNOWN", b"TCP4", b"1", b"\xff", b"\x00", b"::"];
